@@ -63,9 +63,7 @@ pub fn replay_history<M: Model>(model: &M, hist: &[M::Ev]) -> Result<u64, Fail> 
     });
     match res {
         Ok(r) => r,
-        Err(p) => Err(Fail::new("panic", format!("panic: {} at {}", p.msg, p.short_location()))
-            .with("panic_file", p.file())
-            .with("panic_msg", p.msg.clone())),
+        Err(p) => Err(Fail::from_panic(&p)),
     }
 }
 
@@ -160,9 +158,7 @@ pub fn explore<M: Model>(ctx: &Ctx, family: &str, model: &M, opts: ExploreOpts) 
                             ctx.add_violation(family, json!({"history": serde_json::to_value(&h2).unwrap()}), fail);
                         }
                         Err(p) => {
-                            let fail = Fail::new("panic", format!("panic: {} at {}", p.msg, p.short_location()))
-                                .with("panic_file", p.file())
-                                .with("panic_msg", p.msg.clone())
+                            let fail = Fail::from_panic(&p)
                                 .with("step", hist.len() as u64);
                             ctx.add_violation(family, json!({"history": serde_json::to_value(&h2).unwrap()}), fail);
                         }
